@@ -1,0 +1,1 @@
+//! Hooks owned by property C08 (feature `verif-hooks`).
